@@ -29,27 +29,6 @@ REQUIRED = [
 ]
 
 
-FALLBACK_CHAIN = '''package control
-
-import (
-	"github.com/daeuniverse/dae/common/assets"
-	"github.com/daeuniverse/dae/component/routing"
-	"github.com/sirupsen/logrus"
-)
-
-func c01ProductionOptimizers(log *logrus.Logger, locationFinder *assets.LocationFinder) []routing.RulesOptimizer {
-	return []routing.RulesOptimizer{
-		&routing.AliasOptimizer{},
-		&routing.DatReaderOptimizer{Logger: log, LocationFinder: locationFinder},
-		&routing.MergeAndSortRulesOptimizer{},
-		&routing.DeduplicateParamsOptimizer{},
-	}
-}
-
-var c01ProductionOptimizerExprs = []string{"(fallback copy)"}
-'''
-
-
 def run(ctx):
     ctx.trusted += [
         "Common/RuleScan.scan_lower (proved in the same build) — the generic OR/AND/NOT scan = first match",
@@ -67,26 +46,14 @@ def run(ctx):
     if not fake:
         return 2
     # the optimizer chain of NewControlPlane, regenerated from control_plane.go on every run
-    from verifkit import REPO, VERIF, CACHE, sh, go_env
-    chain = os.path.join(CACHE, "gen", "c01_chain.go")
-    if os.path.exists(chain):
-        os.unlink(chain)
-    rc, out, dt = sh(["go", "run", "main.go", os.path.join(REPO, "control"), chain],
-                     cwd=os.path.join(VERIF, "translators", "optchain"), env=go_env(), timeout=600)
-    ctx.log.write(f"$ optchain [{dt:.1f}s rc={rc}] {out}\n")
-    ov = dict(fake)
-    chain_mode = "regenerated from control_plane.go"
-    binp = None
-    if rc == 0:
-        ov[os.path.join(REPO, "control", "zz_verif_c01_chain.go")] = chain
-        binp = ctx.go_test_build("control", ["control/c01_test.go", "control/c12_test.go"], "c01", tags="", extra_overlay=ov)
-    if not binp:
+    files = ["control/c01_test.go", "control/c12_test.go"]
+    chain_ov, chain_mode = ctx.optchain_overlay()
+    binp = ctx.go_test_build("control", files, "c01", tags="", extra_overlay={**fake, **chain_ov})
+    if not binp and not chain_mode.startswith("FALLBACK"):
         # the call site no longer has the shape `routing.NewNormalizedProgram(rules, fallback, <literals>…)`:
         # fall back to the chain as it was when this check was written, and say so
-        chain_mode = "FALLBACK copy (production call site not extractable: %s)" % out.strip()[-200:]
-        open(chain, "w").write(FALLBACK_CHAIN)
-        ov[os.path.join(REPO, "control", "zz_verif_c01_chain.go")] = chain
-        binp = ctx.go_test_build("control", ["control/c01_test.go", "control/c12_test.go"], "c01", tags="", extra_overlay=ov)
+        chain_ov, chain_mode = ctx.optchain_overlay(fallback=True)
+        binp = ctx.go_test_build("control", files, "c01", tags="", extra_overlay={**fake, **chain_ov})
     if not binp:
         return 2
     ctx.cov["production_optimizer_chain"] = chain_mode
